@@ -347,7 +347,7 @@ func classifyMapRange(c *Ctx, mr mapRange) (reason string, how string) {
 			if es, ok := s.(*ast.ExprStmt); ok {
 				if call, ok := es.X.(*ast.CallExpr); ok {
 					if cal := calleeFunc(call, info); cal != nil && cal.Pkg() != nil && (cal.Pkg().Path() == "sort" || cal.Pkg().Path() == "slices") && len(call.Args) > 0 {
-						if id, ok := ast.Unparen(call.Args[0]).(*ast.Ident); ok && info.Uses[id] == o {
+						if id, ok := ast.Unparen(call.Args[0]).(*ast.Ident); ok && info.Uses[id] == o && totalOrderSort(call, cal, info) {
 							sorted = true
 						}
 					}
@@ -441,3 +441,39 @@ func runMapOrder(c *Ctx, rule string, entries []*ssa.Function, extraDecl func(re
 }
 
 var _ = strings.Contains
+
+// totalOrderSort: the sort leaves no ties in map order. sort.Strings/Ints/Float64s and slices.Sort
+// compare whole elements; sort.Slice & co. must compare the elements themselves with < or > (a less
+// function on a transformed key, e.g. strings.ToLower, ties distinct elements and keeps their map order).
+func totalOrderSort(call *ast.CallExpr, cal *types.Func, info *types.Info) bool {
+	switch cal.Name() {
+	case "Strings", "Ints", "Float64s", "Sort":
+		if cal.Pkg().Path() == "slices" || cal.Name() != "Sort" {
+			return true
+		}
+		return false // sort.Sort with a user Less: not examined
+	case "Slice", "SliceStable":
+		if len(call.Args) != 2 {
+			return false
+		}
+		fl, ok := ast.Unparen(call.Args[1]).(*ast.FuncLit)
+		if !ok || len(fl.Body.List) != 1 {
+			return false
+		}
+		ret, ok := fl.Body.List[0].(*ast.ReturnStmt)
+		if !ok || len(ret.Results) != 1 {
+			return false
+		}
+		be, ok := ast.Unparen(ret.Results[0]).(*ast.BinaryExpr)
+		if !ok || (be.Op != token.LSS && be.Op != token.GTR) {
+			return false
+		}
+		slice := exprKey(call.Args[0])
+		isElem := func(e ast.Expr) bool {
+			ix, ok := ast.Unparen(e).(*ast.IndexExpr)
+			return ok && exprKey(ix.X) == slice
+		}
+		return isElem(be.X) && isElem(be.Y)
+	}
+	return false
+}
